@@ -455,6 +455,9 @@ func (handler *Handler) ProxyClientConnection(ctx context.Context, errCh chan<- 
 			handler.setQueryHandler(handler.ResetStatementResponseHandler)
 		default:
 			clientLog.Debugf("Command %d not supported now", cmd)
+			// a response handler left over from the previous command (the one installed at the end of
+			// a prepare response) must not be applied to the response of an unrelated command
+			handler.resetQueryHandler()
 		}
 		if _, err := handler.dbConnection.Write(packet.Dump()); err != nil {
 			clientLog.WithError(err).WithField(logging.FieldKeyEventCode, logging.EventCodeErrorNetworkWrite).
